@@ -27,6 +27,7 @@ func init() {
 }
 
 func runC15(c *Ctx, r *Report) {
+	defer round8(c, r, "C15")
 	c15r1(c, r)
 	c15r2(c, r)
 	c15r4(c, r)
